@@ -17,7 +17,7 @@ CompiledSimulation}:
      raised at the first cycle the wire is 0 and not before;
   T14 the three copies of step_multiple normalise to one AST (and to the frozen text the
      Coq model was written against).
-impl vs specification -> ctx.spec_violation(channel-specific signature);
+impl vs specification -> viol(ctx, channel-specific signature);
 impl vs Coq model    -> ctx.model_mismatch."""
 import hashlib
 import io
@@ -64,7 +64,7 @@ SIMS = [('simulation', 'Simulation', 'guard_simulation'),
         ('compiled', 'CompiledSimulation', 'guard_compiled')]
 
 ODD_NAMES = ['out[3]', 'a.b', 'wire', 'module', 'x-y', '9lives', 'x10', 'x9', 'x2y10', 'x2y9',
-             'a_very_long_wire_name_0', 'always', '$d', 'q$r', 'reg', 'A', 'a', 'o__1', 'sp ace', "t'"]
+             'a_very_long_wire_name_0', 'always', '$d', 'q$r', 'reg', 'A', 'a', 'o__1', 'sp ace', "t'", 'x01', 'x1', 'x001']
 
 # Source of step_multiple (docstring stripped, ast.unparse) the hand model Sim/Trace.v was written against.
 FROZEN_STEP_MULTIPLE = '''def step_multiple(self, provided_inputs={}, expected_outputs={}, nsteps=None, file=sys.stdout, stop_after_first_error=False):
@@ -115,6 +115,17 @@ FROZEN_STEP_MULTIPLE = '''def step_multiple(self, provided_inputs={}, expected_o
 ERR_PREFIX = [('need to supply either input values', 1), ('nsteps is specified but is greater', 2),
               ('must simulate at least one step', 3), ('must supply a value for each provided wire', 4),
               ('any expected outputs must have', 5)]
+
+
+_SIG_COUNT = {}
+
+
+def viol(ctx, sig, what, rep):
+    """forward at most 2 instances per signature (the runner keeps the first 50 reports overall)"""
+    _SIG_COUNT[sig] = _SIG_COUNT.get(sig, 0) + 1
+    ctx.count('violations_by_signature', sig)
+    if _SIG_COUNT[sig] <= 2:
+        ctx.spec_violation(sig, what, rep)
 
 
 # ------------------------------------------------------------------ Coq term printers
@@ -287,7 +298,7 @@ def channel_inspect(ctx, c, key, cls):
     for t, ins in enumerate(c.inputs):
         sim.step(dict(ins))
         if len(tracer) != t + 1 or any(len(tracer.trace[nm]) != t + 1 for nm in tracer.trace):
-            ctx.spec_violation('trace-length:%s' % key,
+            viol(ctx, 'trace-length:%s' % key,
                                '%s: after %d steps the trace lists have lengths %s' % (
                                    cls, t + 1, sorted({len(tracer.trace[nm]) for nm in tracer.trace})),
                                dict(rep, step=t))
@@ -295,7 +306,7 @@ def channel_inspect(ctx, c, key, cls):
         bad = [(nm, sim.inspect(nm), tracer.trace[nm][-1]) for nm in tracer.trace
                if sim.inspect(nm) != tracer.trace[nm][-1]]
         if bad:
-            ctx.spec_violation('inspect-vs-trace:%s' % key,
+            viol(ctx, 'inspect-vs-trace:%s' % key,
                                '%s: inspect(%r) = %s but the last trace entry is %s after step %d' % (
                                    cls, bad[0][0], bad[0][1], bad[0][2], t), dict(rep, step=t))
             break
@@ -382,7 +393,7 @@ def channel_step_multiple(ctx, c, key, cls, guard, trA, exprs, meta):
     except pyrtl.PyrtlError as e:
         err = str(e)
     except Exception as e:  # not a PyRTL error
-        ctx.spec_violation('step_multiple:%s:unexpected-exception' % key,
+        viol(ctx, 'step_multiple:%s:unexpected-exception' % key,
                            '%s.step_multiple raised %r' % (cls, e), rep)
         return
     written = f.getvalue()
@@ -413,7 +424,7 @@ def channel_step_multiple(ctx, c, key, cls, guard, trA, exprs, meta):
     ctx.count('step_multiple_scenarios', kind)
     if want_err is not None:
         if got_err != want_err or nB != 0 or written:
-            ctx.spec_violation(sig + 'prologue', '%s.step_multiple: expected prologue error %d without '
+            viol(ctx, sig + 'prologue', '%s.step_multiple: expected prologue error %d without '
                                'simulating, got %r, %d steps, %d chars written' % (
                                    cls, want_err, err, nB, len(written)), rep)
         model_want = (0, want_err, [], 0, '')
@@ -436,21 +447,21 @@ def channel_step_multiple(ctx, c, key, cls, guard, trA, exprs, meta):
                 break
         if raised:
             if err is None or got_err is not None or nB != executed or written:
-                ctx.spec_violation(sig + 'rejected-input', '%s.step_multiple with an out-of-range value at '
+                viol(ctx, sig + 'rejected-input', '%s.step_multiple with an out-of-range value at '
                                    'step %d: expected PyrtlError from step after %d cycles and nothing '
                                    'written; got error %r, %d cycles, %r' % (
                                        cls, sc['bad_at'], executed, err, nB, written[:80]), rep)
         else:
             if err is not None:
-                ctx.spec_violation(sig + 'spurious-error', '%s.step_multiple raised %r on legal arguments'
+                viol(ctx, sig + 'spurious-error', '%s.step_multiple raised %r on legal arguments'
                                    % (cls, err), rep)
                 return
             if nB != executed or any(trB[nm] != trA[nm][:executed] for nm in trB):
-                ctx.spec_violation(sig + 'trace', '%s.step_multiple (%d cycles) and %d single steps give '
+                viol(ctx, sig + 'trace', '%s.step_multiple (%d cycles) and %d single steps give '
                                    'different traces' % (cls, nB, executed), rep)
             if not want_fail:
                 if written:
-                    ctx.spec_violation(sig + 'report', '%s.step_multiple wrote a report although every '
+                    viol(ctx, sig + 'report', '%s.step_multiple wrote a report although every '
                                        'expected output matched: %r' % (cls, written[:200]), rep)
             else:
                 try:
@@ -463,7 +474,7 @@ def channel_step_multiple(ctx, c, key, cls, guard, trA, exprs, meta):
                 hdr_ok = rows is not None and h1 == ('Unexpected output (stopped after step with first error):'
                                                     if sc['stop'] else 'Unexpected output on one or more steps:')
                 if not ok or not hdr_ok:
-                    ctx.spec_violation(sig + 'report', '%s.step_multiple reported %s, the mismatching expected '
+                    viol(ctx, sig + 'report', '%s.step_multiple reported %s, the mismatching expected '
                                        'outputs are %s' % (cls, rows if rows is not None else h1, want_sorted),
                                        dict(rep, written=written))
         model_want = None
@@ -502,7 +513,7 @@ def channel_text(ctx, c, key, cls, tracer, use_coq, exprs, meta):
             'traced': {nm: tr[nm] for nm in order}}
     # the implementation's order must be a natural-sort order
     if [natkey(nm) for nm in order] != sorted(natkey(nm) for nm in order):
-        ctx.spec_violation('trace-order:%s' % key, 'traced wires are not listed in natural order: %s' % order, rep0)
+        viol(ctx, 'trace-order:%s' % key, 'traced wires are not listed in natural order: %s' % order, rep0)
     if use_coq:
         exprs.append('sorted_case %s' % lst(txt(nm) for nm in tr))
         meta.append(('sorted', c.i, key, order, rep0))
@@ -517,7 +528,7 @@ def channel_text(ctx, c, key, cls, tracer, use_coq, exprs, meta):
     used = [ids[nm] for nm in order]
     if len(set(used)) != len(used):
         dup = sorted({x for x in used if used.count(x) > 1})
-        ctx.spec_violation('vcd:identifier-collision', 'print_vcd gives the same identifier %s to different wires %s'
+        viol(ctx, 'vcd:identifier-collision', 'print_vcd gives the same identifier %s to different wires %s'
                            % (dup, [nm for nm in order if ids[nm] in dup]), rep)
     else:
         try:
@@ -547,7 +558,7 @@ def channel_text(ctx, c, key, cls, tracer, use_coq, exprs, meta):
         for ok, what in ((ok_vals, 'values'), (ok_times, 'timestamps'), (ok_decl, 'declarations'),
                          (ok_dump, 'dumpvars'), (ok_width, 'value-exceeds-declared-width')):
             if not ok:
-                ctx.spec_violation(sig % what, 'print_vcd text does not encode the trace (%s)' % what, rep)
+                viol(ctx, sig % what, 'print_vcd text does not encode the trace (%s)' % what, rep)
         if use_coq and len(text) <= COQ_TEXT_LIMIT:
             rows = lst('(%s, %s, %d, %s)' % (txt(nm), txt(ids[nm]), tracer._wires[nm].bitwidth, zlist(tr[nm]))
                        for nm in order)
@@ -583,7 +594,7 @@ def channel_text(ctx, c, key, cls, tracer, use_coq, exprs, meta):
             ok = False
             rep['parse_error'] = repr(e)
         if not ok:
-            ctx.spec_violation(sig + 'values', 'print_trace(base=%d, compact=%s) text does not encode the trace'
+            viol(ctx, sig + 'values', 'print_trace(base=%d, compact=%s) text does not encode the trace'
                                % (base, compact), rep)
         ctx.count('print_trace', 'base%d%s' % (base, '-compact' if compact else ''))
         if use_coq and not spacey and len(text) <= COQ_TEXT_LIMIT and (compact or base == [2, 8, 10, 16][c.i % 4]):
@@ -633,27 +644,27 @@ def channel_illegal(ctx, c, key, cls, sim, tracer, guard_pairs):
         ctx.count('illegal_inputs', '%s:%s:%s' % (key, 'legal' if legal else ('negative' if v < 0 else 'too-large'), outcome))
         if legal:
             if outcome != 'accepted' or after != before + 1:
-                ctx.spec_violation('%s:legal-input-refused' % key, '%s refused legal value %d for a %d-bit input (%s)'
+                viol(ctx, '%s:legal-input-refused' % key, '%s refused legal value %d for a %d-bit input (%s)'
                                    % (cls, v, w, outcome), rep)
             continue
         kindv = 'negative' if v < 0 else 'oversize'
         if outcome == 'accepted':
-            ctx.spec_violation('%s:%s-input-accepted' % (key, kindv),
+            viol(ctx, '%s:%s-input-accepted' % (key, kindv),
                                '%s.step accepted %s value %d for %d-bit Input %s and simulated it (trace %d -> %d)'
                                % (cls, kindv, v, w, target.name, before, after), rep)
         elif outcome != 'rejected':
-            ctx.spec_violation('%s:%s-input-wrong-exception' % (key, kindv),
+            viol(ctx, '%s:%s-input-wrong-exception' % (key, kindv),
                                '%s.step raised %s instead of PyrtlError on value %d for a %d-bit input'
                                % (cls, outcome, v, w), rep)
         if outcome != 'accepted':
             if after != before:
-                ctx.spec_violation('%s:rejected-step-advanced-trace' % key,
+                viol(ctx, '%s:rejected-step-advanced-trace' % key,
                                    '%s.step refused value %d but the trace grew %d -> %d' % (cls, v, before, after), rep)
             elif before > 0:
                 bad = [(nm, sim.inspect(nm), tracer.trace[nm][-1]) for nm in tracer.trace
                        if sim.inspect(nm) != tracer.trace[nm][-1]]
                 if bad:
-                    ctx.spec_violation('%s:rejected-step-mutates-inspect' % key,
+                    viol(ctx, '%s:rejected-step-mutates-inspect' % key,
                                        '%s.step refused value %d for %s, yet afterwards inspect(%r) = %s while the '
                                        'last trace entry is %s' % (cls, v, target.name, bad[0][0], bad[0][1], bad[0][2]),
                                        rep)
@@ -735,7 +746,7 @@ def channel_assert(ctx, j, exprs, meta):
                 seen_low = (t, low[0])
                 break
         if raised != seen_low or raised != first:
-            ctx.spec_violation('rtl_assert:%s' % key,
+            viol(ctx, 'rtl_assert:%s' % key,
                                '%s: rtl_assert raised at %s, the assertion wire is first 0 at %s (traced: %s)'
                                % (cls, raised, first, seen_low), rep)
         ctx.count('assert_outcomes', '%s:%s' % (key, 'raised' if raised else 'never-low'))
@@ -782,12 +793,13 @@ def directed_prefix_names(ctx, exprs, meta):
                 sim, tracer = channel_inspect(ctx, c, key, cls)
                 channel_text(ctx, c, key, cls, tracer, False, exprs, meta)
             except Exception as e:
-                ctx.spec_violation('simulator-failed:%s' % key, '%s failed on a design with wires named %r and %r: %r'
+                viol(ctx, 'simulator-failed:%s' % key, '%s failed on a design with wires named %r and %r: %r'
                                    % (cls, bad, plain, e), {'names': [bad, plain], 'simulator': cls})
 
 
 # ------------------------------------------------------------------ main
 def run(ctx):
+    _SIG_COUNT.clear()
     ndesigns = 36 if ctx.tier == 'quick' else 450
     nassert = 30 if ctx.tier == 'quick' else 300
     # ---- T14 gate
@@ -817,7 +829,7 @@ def run(ctx):
             try:
                 sim, tracer = channel_inspect(ctx, c, key, cls)
             except Exception as e:
-                ctx.spec_violation('simulator-failed:%s' % key, '%s failed on an API-built design: %r' % (cls, e),
+                viol(ctx, 'simulator-failed:%s' % key, '%s failed on an API-built design: %r' % (cls, e),
                                    {'seed': ctx.seed, 'design': c.i, 'simulator': cls})
                 continue
             trA = trace_dict(tracer)
